@@ -27,8 +27,9 @@ CHECK_DEADLOCK FALSE
 
 def mw_model(c, invs, props, twins, reqs='"r1", "r2"', writers='"w1", "w2"'):
     pl = ("PROPERTIES " + props) if props else ""
+    acts = ["ReqStart", "ReqSnap", "ReqHeader", "ReqEmit", "WStart", "ReconfValidate", "ReconfCommit", "SetDebug", "ConfigSnap", "ConfigRender"]
     thunks = [lambda: c.model_check("Middleware", MW_CFG % dict(reqs=reqs, writers=writers, bug="none", invs=invs, props=pl),
-                                    tag="Middleware_" + c.pid, workers=8)]
+                                    tag="Middleware_" + c.pid, workers=8, must_cover=acts)]
     for bug, expect in twins:
         thunks.append(lambda bug=bug, expect=expect: c.negative_twin(
             "Middleware", MW_CFG % dict(reqs=reqs, writers=writers, bug=bug, invs=invs, props=pl),
